@@ -187,8 +187,8 @@ fn placements() -> Vec<String> {
 fn field_product(run: &Run) {
     let ps = placements();
     let sides = ["w", "b", "W", "B", "x", "", "é"];
-    let castles = ["-", "K", "Q", "k", "q", "KQkq", "Kk", "Qq", "KK", "XYZ", ""];
-    let mut eps: Vec<String> = vec!["-".into(), "e4".into(), "e5".into(), "z9".into(), "e".into(), "".into(), "é".into()];
+    let castles = ["-", "K", "Q", "k", "q", "KQkq", "Kk", "Qq", "KK", "XYZ", "", "qkQK", "kK", "QK"];
+    let mut eps: Vec<String> = vec!["-".into(), "e4".into(), "e5".into(), "z9".into(), "e".into(), "".into(), "é".into(), "E3".into(), "E6".into(), "a9".into(), "i3".into()];
     for f in b'a'..=b'h' {
         eps.push(format!("{}3", f as char));
         eps.push(format!("{}6", f as char));
@@ -400,6 +400,139 @@ fn builder_states(run: &Run, max_men: usize, rights_alpha: &[u8], ep_alpha: &[i8
     });
 }
 
+/// Structured builder families aimed at the individual clauses of is_sane-like validation.
+fn structured_builder_states(run: &Run) {
+    let rights_alpha: [u8; 6] = [0, WK, WK | WQ, BQ, BK, 15];
+    let ep_alpha: [i8; 4] = [-1, 0, 4, 7];
+    // (a) both kings anywhere (adjacent included) plus one more man of any of the 12 kinds anywhere
+    (0..64u8).into_par_iter().for_each(|wk| {
+        if run.has_violation() {
+            return;
+        }
+        guard::crumb_text(&format!("builder family kings + one man, white king on {}", sq_name(wk)));
+        for bk in 0..64u8 {
+            if bk == wk {
+                continue;
+            }
+            for third in 0..64u8 {
+                if third == wk || third == bk {
+                    continue;
+                }
+                for c3 in 1..=12u8 {
+                    let mut p = RefPos::empty();
+                    let mut bb = BoardBuilder::new();
+                    for (s, c) in [(wk, code(Kind::K, Col::W)), (bk, code(Kind::K, Col::B)), (third, c3)] {
+                        p.bd[s as usize] = c;
+                        let (k, col) = decode(c).unwrap();
+                        bb.piece(lsq(s), lkind(k), lcol(col));
+                    }
+                    for stm in [Col::W, Col::B] {
+                        p.stm = stm;
+                        bb.side_to_move(lcol(stm));
+                        for &r in rights_alpha.iter() {
+                            // rights can only matter when a king stands on e1/e8: skip the rest except "none"
+                            if r != 0 && wk != 4 && bk != 60 {
+                                continue;
+                            }
+                            p.castle = r;
+                            bb.castle_rights(Color::White, lrights(r & WK != 0, r & WQ != 0));
+                            bb.castle_rights(Color::Black, lrights(r & BK != 0, r & BQ != 0));
+                            for &e in ep_alpha.iter() {
+                                // an en-passant file can only matter when the third man is a pawn
+                                if e >= 0 && (c3 - 1) % 6 != 0 {
+                                    continue;
+                                }
+                                p.dp = e;
+                                bb.en_passant(if e < 0 { None } else { Some(lfile(e)) });
+                                if !judge_builder(run, &bb, &p, "kings plus one man") {
+                                    return;
+                                }
+                            }
+                        }
+                    }
+                }
+            }
+        }
+    });
+    // (b) castling-right backing: kings on/off home, every corner empty / own rook / own bishop /
+    //     enemy rook, all 16 rights sets, both sides to move
+    let corner_opts = |own: Col| -> [Option<(Kind, Col)>; 4] { [None, Some((Kind::R, own)), Some((Kind::B, own)), Some((Kind::R, own.flip()))] };
+    for wk in [4u8, 3] {
+        for bk in [60u8, 59] {
+            for corners in 0..256u32 {
+                let mut p = RefPos::empty();
+                let mut bb = BoardBuilder::new();
+                p.put(wk, Kind::K, Col::W);
+                p.put(bk, Kind::K, Col::B);
+                bb.piece(lsq(wk), lkind(Kind::K), lcol(Col::W));
+                bb.piece(lsq(bk), lkind(Kind::K), lcol(Col::B));
+                for (i, (sqr, own)) in [(0u8, Col::W), (7, Col::W), (56, Col::B), (63, Col::B)].iter().enumerate() {
+                    if let Some((k, c)) = corner_opts(*own)[((corners >> (2 * i)) & 3) as usize] {
+                        p.put(*sqr, k, c);
+                        bb.piece(lsq(*sqr), lkind(k), lcol(c));
+                    }
+                }
+                for stm in [Col::W, Col::B] {
+                    p.stm = stm;
+                    bb.side_to_move(lcol(stm));
+                    for r in 0..16u8 {
+                        p.castle = r;
+                        bb.castle_rights(Color::White, lrights(r & WK != 0, r & WQ != 0));
+                        bb.castle_rights(Color::Black, lrights(r & BK != 0, r & BQ != 0));
+                        if !judge_builder(run, &bb, &p, "castling-right backing") {
+                            return;
+                        }
+                    }
+                }
+            }
+        }
+    }
+    // (c) en-passant shape: on rank 4 or 5, file f: no man / white pawn / black pawn; each
+    //     neighbour likewise; the passed-over square empty or occupied; every en-passant file
+    for (wk, bk) in [(6u8, 62u8), (2, 58), (0, 63), (7, 56)] {
+        for rank in [3i8, 4] {
+            for f in 0..8i8 {
+                for cfg in 0..27u32 {
+                    for blocked in [false, true] {
+                        let mut p = RefPos::empty();
+                        let mut bb = BoardBuilder::new();
+                        let mut put = |p: &mut RefPos, bb: &mut BoardBuilder, s: Sq, k: Kind, c: Col| {
+                            if p.bd[s as usize] == 0 {
+                                p.put(s, k, c);
+                                bb.piece(lsq(s), lkind(k), lcol(c));
+                            }
+                        };
+                        put(&mut p, &mut bb, wk, Kind::K, Col::W);
+                        put(&mut p, &mut bb, bk, Kind::K, Col::B);
+                        for (i, df) in [0i8, -1, 1].iter().enumerate() {
+                            let v = (cfg / 3u32.pow(i as u32)) % 3;
+                            let ff = f + df;
+                            if v > 0 && (0..8).contains(&ff) {
+                                put(&mut p, &mut bb, sq(ff, rank), Kind::P, if v == 1 { Col::W } else { Col::B });
+                            }
+                        }
+                        if blocked {
+                            let behind = if rank == 3 { 2 } else { 5 };
+                            put(&mut p, &mut bb, sq(f, behind), Kind::N, Col::W);
+                        }
+                        for stm in [Col::W, Col::B] {
+                            p.stm = stm;
+                            bb.side_to_move(lcol(stm));
+                            for e in -1..8i8 {
+                                p.dp = e;
+                                bb.en_passant(if e < 0 { None } else { Some(lfile(e)) });
+                                if !judge_builder(run, &bb, &p, "en-passant shape") {
+                                    return;
+                                }
+                            }
+                        }
+                    }
+                }
+            }
+        }
+    }
+}
+
 // ------------------------------------------------------------------------------------------ crowded boards
 
 fn crowded(run: &Run, tier: Tier) {
@@ -502,7 +635,7 @@ impl PosOracle for C07Universe {
     }
 }
 
-pub const RULE: &str = "text: (i) the complete product placement(~200: valid ones, ranks not summing to 8, digit runs that wrap the file counter, 7 and 9 ranks, empty, stray letters, multi-byte characters) x side(7) x castling(11) x en passant(23) x tail(4); (ii) the complete 1-edit ball (insert / delete / substitute at every index, 40-symbol alphabet incl. tab and 2/3/4-byte characters) of ~50 seed FENs (thorough: the 2-edit ball of 3 short seeds); (iii) every string of length <= 3 (thorough 4). builder: EVERY builder state with <= 2 men (thorough 3) of any kind and colour on any squares (0-3 kings of a colour, pawns on the back ranks included) x both sides to move x a rights alphabet x an en-passant-file alphabet; crowded boards: for 6 square patterns x 5 kinds x 2 colours, n = 0..|pattern| men of one colour laid down in pattern order, the enemy king on every free square, that colour to move; the standard position universes (every reference-valid position must be accepted from the builder and from its standard FEN). Oracle: (1) no panic / abort; (2) accepted => one king each, side not to move not attacked, rights backed by king and rook at home, en_passant() names an enemy pawn on its double-push rank; (3) reference-valid => accepted; between (2) and (3) either answer; (4) every accepted board: full move generation, len, status, rendering, null move, hash, make_move_new and make_move of every generated move, inside catch_unwind in the debug-assertion build. distinct_nontrivial = accepted inputs (each is exercised)";
+pub const RULE: &str = "text: (i) the complete product placement(~200: valid ones, ranks not summing to 8, digit runs that wrap the file counter, 7 and 9 ranks, empty, stray letters, multi-byte characters) x side(7) x castling(14) x en passant(27) x tail(4); (ii) the complete 1-edit ball (insert / delete / substitute at every index, 40-symbol alphabet incl. tab and 2/3/4-byte characters) of ~50 seed FENs (thorough: the 2-edit ball of 3 short seeds); (iii) every string of length <= 3 (thorough 4). builder: EVERY builder state with <= 2 men (thorough 3) of any kind and colour on any squares (0-3 kings of a colour, pawns on the back ranks included) x both sides to move x a rights alphabet x an en-passant-file alphabet; structured builder families: (a) both kings anywhere (adjacent included) plus one man of any of the 12 kinds anywhere x side x rights x en-passant file; (b) castling-right backing: kings on/off home x every corner empty / own rook / own bishop / enemy rook x all 16 rights sets; (c) en-passant shape: a pawn of either colour or none on file f of rank 4/5 and on each neighbour file, passed-over square empty or occupied, every en-passant file; crowded boards: for 6 square patterns x 5 kinds x 2 colours, n = 0..|pattern| men of one colour laid down in pattern order, the enemy king on every free square, that colour to move; the standard position universes (every reference-valid position must be accepted from the builder and from its standard FEN). Oracle: (1) no panic / abort; (2) accepted => one king each, side not to move not attacked, rights backed by king and rook at home, en_passant() names an enemy pawn on its double-push rank; (3) reference-valid => accepted; between (2) and (3) either answer; (4) every accepted board: full move generation, len, status, rendering, null move, hash, make_move_new and make_move of every generated move, inside catch_unwind in the debug-assertion build. distinct_nontrivial = accepted inputs (each is exercised)";
 
 pub fn run(tier: Tier) -> i32 {
     let run = Arc::new(Run::new("C07", tier, COUNTERS));
@@ -524,6 +657,9 @@ pub fn run(tier: Tier) -> i32 {
                 builder_states(&run, 3, &[0, WK, WK | WQ, BQ], &[-1, 0, 4, 7]);
             }
         }
+    }
+    if !run.has_violation() {
+        structured_builder_states(&run);
     }
     if run.over_budget() {
         run.cap("wall-clock budget reached during the builder-state enumeration (first-man slices not started were skipped)".into());
